@@ -18,7 +18,9 @@ func DumpStatistics(m memory.Memory, fileName string, acmeLabels map[uint16][]st
 
 	cutOff := determineCutOffValue(m, start, end)
 
-	for count := start; count <= end; count++ {
+	// Count in 32 bits: a 16 bit counter wraps around when end is 0xFFFF
+	for c := uint32(start); c <= uint32(end); c++ {
+		count := uint16(c)
 		labels, ok := acmeLabels[count]
 		if ok {
 			for _, j := range labels {
